@@ -73,7 +73,7 @@ def objects_in(obj):
 
 
 import re as _re
-_BREAKS = _re.compile("\r\n|[\r\n\x85  ]")
+_BREAKS = _re.compile("\r\n|[\r\n\x85\u2028\u2029]")
 
 
 def has_foldable_more_indented_line(text):
